@@ -63,3 +63,76 @@ theorem sign_is_hmac96 (D : Digests) (hD : D.WF) (alg : AuthAlg) (key data : Byt
   omega
 
 end GufoSnmp
+
+namespace GufoSnmp
+open Gen Outcome
+
+/-- octets of a serialised v3 message in front of the content of msgAuthenticationParameters -/
+def v3Prefix (m : V3Msg) (d : Bytes) : Bytes :=
+  tagLenBytes 0x30 (encV3Body m d).length ++ ([UInt8.ofNat tagInt, 1, UInt8.ofNat snmpV3] ++ (encV3Header m ++
+    (tagLenBytes (UInt8.ofNat tagOctetString) (encUsm m.usm).length ++
+      (tagLenBytes 0x30 (tlvBytes (UInt8.ofNat tagOctetString) m.usm.engineId ++ (encInt m.usm.engineBoots ++
+          (encInt m.usm.engineTime ++ (tlvBytes (UInt8.ofNat tagOctetString) m.usm.userName ++
+            (tlvBytes (UInt8.ofNat tagOctetString) m.usm.authParams ++
+              tlvBytes (UInt8.ofNat tagOctetString) m.usm.privacyParams))))).length ++
+        (tlvBytes (UInt8.ofNat tagOctetString) m.usm.engineId ++ (encInt m.usm.engineBoots ++
+          (encInt m.usm.engineTime ++ (tlvBytes (UInt8.ofNat tagOctetString) m.usm.userName ++
+            tagLenBytes (UInt8.ofNat tagOctetString) m.usm.authParams.length))))))))
+
+/-- octets after the content of msgAuthenticationParameters: msgPrivacyParameters and msgData -/
+def v3Suffix (m : V3Msg) (d : Bytes) : Bytes :=
+  tlvBytes (UInt8.ofNat tagOctetString) m.usm.privacyParams ++ d
+
+/-- a serialised v3 message is prefix ‖ msgAuthenticationParameters ‖ suffix -/
+theorem encV3_split (m : V3Msg) (d : Bytes) :
+    tlvBytes 0x30 (encV3Body m d) = v3Prefix m d ++ (m.usm.authParams ++ v3Suffix m d) := by
+  simp only [tlvBytes, encV3Body, v3Tail, encUsm, v3Prefix, v3Suffix, List.append_assoc]
+
+/-- **offset**: after `push_ber` of a v3 message with authentication parameters of 1..127 octets
+into an empty buffer, `get_bookmark()` is the offset of those parameters within the datagram -/
+theorem v3_bookmark_offset (b : Buf) (hb : b.cells = []) (m : V3Msg) (d enc : Bytes)
+    (hd : encMsgData m.data = some d) (he : encV3 m = some enc) (hfit : enc.length ≤ Buf.cap)
+    (ha1 : 1 ≤ m.usm.authParams.length) (ha2 : m.usm.authParams.length < 128) :
+    ∃ b', pushV3 b m = .ok b' ∧ b'.data = .ok enc ∧ b'.getBookmark = .ok (v3Prefix m d).length ∧
+      enc = v3Prefix m d ++ (m.usm.authParams ++ v3Suffix m d) := by
+  have hspec := pushV3_spec b hb m d enc hd he
+  unfold specOutB at hspec
+  have hl : b.len = 0 := by simp [Buf.len, hb]
+  rw [if_pos (by omega)] at hspec
+  have henc : enc = tlvBytes 0x30 (encV3Body m d) := by
+    unfold encV3 at he; rw [hd] at he; simp only [Option.map_some, Option.some.injEq] at he; exact he.symm
+  refine ⟨_, hspec, ?_, ?_, by rw [henc]; exact encV3_split m d⟩
+  · unfold Buf.data
+    simp only [hb, List.append_nil]
+    have hall : (enc.map some).all Option.isSome = true := by simp [List.all_eq_true]
+    rw [if_pos hall, filterMap_id_map_some]
+  · unfold Buf.getBookmark v3Bookmark usmBookmark Buf.pos
+    have hne : m.usm.authParams.isEmpty = false := by
+      cases h : m.usm.authParams with
+      | nil => rw [h] at ha1; simp at ha1
+      | cons _ _ => rfl
+    simp only [hne, Bool.false_eq_true, if_false, hb, List.append_nil, List.length_map, Buf.prepend_len, hl,
+      Nat.add_zero]
+    have hsplit := congrArg List.length (encV3_split m d)
+    rw [← henc] at hsplit
+    simp only [List.length_append, v3Suffix] at hsplit
+    have hta : (tlvBytes (UInt8.ofNat tagOctetString) m.usm.authParams).length = m.usm.authParams.length + 2 := by
+      unfold tlvBytes tagLenBytes
+      rw [if_pos ha2]; simp
+    have hP2 : 2 ≤ (v3Prefix m d).length := by
+      unfold v3Prefix
+      have : 2 ≤ (tagLenBytes 0x30 (encV3Body m d).length).length := by
+        unfold tagLenBytes; split <;> (try split) <;> simp
+      rw [List.length_append]; omega
+    generalize hT : (tlvBytes (UInt8.ofNat tagOctetString) m.usm.authParams).length = T at *
+    generalize hP : (v3Prefix m d).length = P at *
+    generalize hA : m.usm.authParams.length = A at *
+    generalize hQ : (tlvBytes (UInt8.ofNat tagOctetString) m.usm.privacyParams).length = Q at *
+    generalize hE : enc.length = E at *
+    generalize hDl : d.length = Dl at *
+    generalize hC : Buf.cap = C at *
+    rw [usub_ok (by omega)]
+    congr 1
+    omega
+
+end GufoSnmp
